@@ -35,11 +35,12 @@ func checkC19(c *Ctx) {
 	info := p.TypesInfo
 	// the built-ins registered under "string", "bool", "number"
 	conv := map[string]*Func{}
-	for _, f := range w.FuncsIn(p) {
-		if f.Body == nil {
+	// every keyed element of the package (function bodies and package-level tables alike)
+	for _, file := range p.Syntax {
+		if strings.HasSuffix(w.Fset.Position(file.Pos()).Filename, "_test.go") {
 			continue
 		}
-		ast.Inspect(f.Body, func(n ast.Node) bool {
+		ast.Inspect(file, func(n ast.Node) bool {
 			kv, ok := n.(*ast.KeyValueExpr)
 			if !ok {
 				return true
@@ -52,7 +53,14 @@ func checkC19(c *Ctx) {
 			if name != "string" && name != "bool" && name != "number" {
 				return true
 			}
-			if id := identOf(kv.Value); id != nil {
+			val := unparen(kv.Value)
+			// a conversion to the function type: YarnSpinnerFunction(toString)
+			if cv, isCall := val.(*ast.CallExpr); isCall && len(cv.Args) == 1 {
+				if ftv, ok := info.Types[cv.Fun]; ok && ftv.IsType() {
+					val = unparen(cv.Args[0])
+				}
+			}
+			if id := identOf(val); id != nil && val == ast.Expr(id) {
 				if fn, ok := info.Uses[id].(*types.Func); ok {
 					if g := w.byObj[fn]; g != nil && g.Body != nil && g.Sig().Params().Len() == 1 && g.Sig().Results().Len() == 2 && isValuePtr(g.Sig().Results().At(0).Type()) {
 						conv[name] = g
